@@ -9,6 +9,17 @@ Proof. vm_compute. reflexivity. Qed.
 Lemma prec_255 : devlog_prec C = 255.
 Proof. vm_compute. reflexivity. Qed.
 
+(** the two fixed-destination outputs name a device file: an absolute path under /dev/, and the socket behind devlog is an absolute path
+    (a source in which these are not literal device paths is not the code the model describes) *)
+Definition dev_prefix : list byte := [x2f; x64; x65; x76; x2f].      (* "/dev/" *)
+Lemma dev_paths_ok : prefixb dev_prefix (devtty_path C) && prefixb dev_prefix (devnull_path C) && prefixb dev_prefix (devlog_path C) = true.
+Proof. vm_compute. reflexivity. Qed.
+Theorem C04_fixed_destinations : exists a b c, devtty_path C = dev_prefix ++ a /\ devnull_path C = dev_prefix ++ b /\ devlog_path C = dev_prefix ++ c.
+Proof.
+  pose proof dev_paths_ok as H. apply andb_prop in H as [H H3]. apply andb_prop in H as [H1 H2].
+  apply prefixb_app in H1 as [a Ha]. apply prefixb_app in H2 as [b Hb]. apply prefixb_app in H3 as [c Hc]. now exists a, b, c.
+Qed.
+
 (** T2: the action filters first and dispatches exactly once; the dispatch discards the empty message *)
 Theorem C04_action_shape : action_shape sk_action = true /\ dispatch_shape sk_dispatch = true.
 Proof. split; vm_compute; reflexivity. Qed.
@@ -62,6 +73,7 @@ Example C04_nonvacuous :
 Proof. vm_compute. reflexivity. Qed.
 
 Print Assumptions C04_action_shape.
+Print Assumptions C04_fixed_destinations.
 Print Assumptions C04_one_record.
 Print Assumptions C04_devlog_frame.
 Print Assumptions C04_none_when_dropped.
